@@ -1021,7 +1021,8 @@ func (d *HAMTDirectory) AddChild(ctx context.Context, name string, nd ipld.Node)
 	}
 
 	if oldChild != nil {
-		d.removeFromSizeChange(oldChild.Name, oldChild.Cid)
+		// oldChild.Name may still carry the shard's hex prefix: use the entry name.
+		d.removeFromSizeChange(name, oldChild.Cid)
 	}
 	d.addToSizeChange(name, nd.Cid())
 	if oldChild == nil {
@@ -1064,7 +1065,7 @@ func (d *HAMTDirectory) RemoveChild(ctx context.Context, name string) error {
 	}
 
 	if oldChild != nil {
-		d.removeFromSizeChange(oldChild.Name, oldChild.Cid)
+		d.removeFromSizeChange(name, oldChild.Cid)
 		d.totalLinks--
 	}
 
@@ -1161,7 +1162,9 @@ func (d *HAMTDirectory) needsToSwitchToBasicDir(ctx context.Context, name string
 
 	operationSizeChange := 0
 	if entryToRemove != nil {
-		operationSizeChange -= d.linkSizeFor(entryToRemove)
+		// The link returned by the shard may still carry the shard's hex prefix
+		// in Name; size it under the entry name it is stored as.
+		operationSizeChange -= d.linkSizeFor(&ipld.Link{Name: name, Size: entryToRemove.Size, Cid: entryToRemove.Cid})
 	}
 	if nodeToAdd != nil {
 		link, err := ipld.MakeLink(nodeToAdd)
@@ -1173,8 +1176,8 @@ func (d *HAMTDirectory) needsToSwitchToBasicDir(ctx context.Context, name string
 
 	// We must switch if size and maxlinks are below threshold
 	canSwitchSize := false
-	// Directory size reduced, perhaps below limit.
-	if d.sizeChange+operationSizeChange < 0 {
+	// Directory size not above what it was when it became a HAMT, perhaps below limit.
+	if d.sizeChange+operationSizeChange <= 0 {
 		canSwitchSize, err = d.sizeBelowThreshold(ctx, operationSizeChange)
 		if err != nil {
 			return false, err
